@@ -59,6 +59,19 @@ def gen_cases(tier, seed):
             content = bytes(body[:max(1, min(n // 2, 3 * d0))])
             cases.append({'fn': 'make', 'content': content, 'kw': {'version': v, 'error': lv, 'boost_error': False, 'mode': 'byte'},
                           'patterns': ['max-weight', 'uniform'], 'fseed': rng.randrange(1 << 30), 'layout': '%s|%s' % (v, lv)})
+    # list content whose parts share a mode (they are merged into one segment), sized around the capacities of the
+    # Micro versions - M1 / M3 end in a 4-bit codeword, so any surplus bit lands in the nibble that is not placed
+    for _ in range(120 if tier == 'quick' else 3000):
+        total = rng.randint(3, 40)
+        digits = gen.digits(rng, total)
+        cuts = sorted(rng.sample(range(1, total), rng.randint(1, min(3, total - 1))))
+        parts = [digits[a:b] for a, b in zip([0] + cuts, cuts + [total])]
+        if rng.random() < 0.3:
+            parts = [p_.replace('0', 'A').replace('1', 'B') + 'Z' for p_ in parts]      # alphanumeric parts
+        fn = rng.choice(['make', 'make_micro', 'make_micro', 'make_qr'])
+        kw = {} if rng.random() < 0.6 else {'error': rng.choice(['L', 'M'])}
+        cases.append({'fn': fn, 'content': parts, 'kw': kw, 'patterns': ['uniform'], 'fseed': rng.randrange(1 << 30),
+                      'layout': 'parts'})
     rng.shuffle(cases)
     return cases
 
@@ -156,6 +169,9 @@ def corrupt_and_decode(matrix, s, ks, rng, rec, kind):
 
 def after(case, q, ex, rec):
     if ex is not None:
+        if case.get('layout') == 'parts' and isinstance(ex, ValueError):
+            rec.count('part_lists_refused')      # too large for the factory that was asked: not a layout case
+            return
         rec.deviation('C03', 'layout-case-refused', {'error': repr(ex)})
         return
     last = monitors.State.last
